@@ -478,6 +478,25 @@ func (c20) Eval(c *Chooser, env *Env) *Outcome {
 	}
 	if fatalExpected {
 		// an injected failure of a listed kind must surface as a fatal error
+		if res.Fatal != "" && len(tools.Faults) == 1 && !kern.RaceLane {
+			// exactly one invocation of the whole run fails: the fatal error is then a function of
+			// the inputs (which script failed, in which file) and must not depend on the schedule
+			for key := range tools.Faults {
+				if want[key] == 1 {
+					r0 := RunLint(w, nil, RunOpts{Canonical: true})
+					o.addRun(r0.K)
+					if viaMain {
+						mainToLib(r0, root)
+					}
+					if runFailure("C20", r0.K) == nil && r0.Fatal != "" && r0.Fatal != res.Fatal {
+						o.V = &Violation{Oracle: "schedule-independent-output", Class: "fatal-error-differs",
+							Message: fmt.Sprintf("one tool invocation fails (%s); the fatal error returned depends on the schedule.\n  canonical run: %s\n  this run:      %s", strings.Join(faulted, ", "), r0.Fatal, res.Fatal)}
+						return o
+					}
+					o.probe("single_failure_fatal_text_compared", 1)
+				}
+			}
+		}
 		if res.Fatal == "" {
 			o.V = &Violation{Oracle: "tool-failure-is-fatal", Class: "failure-not-fatal:" + strings.Join(faultKinds(faulted), "+"),
 				Message: "a tool invocation failed (" + strings.Join(faulted, ", ") + ") but the lint call returned a normal result: diagnostics of that script are silently lost"}
